@@ -175,16 +175,16 @@ func loopSite() string {
 // ---------------------------------------------------------------- attackers
 
 type attacker struct {
-	idx   int
-	ip    string
-	nc    net.Conn
-	hs0   bool
-	eof   chan struct{}
-	pong  chan int
-	pingN int
-	sentN int
-	wrErr atomic.Bool
-	desc  string
+	idx    int
+	ip     string
+	nc     net.Conn
+	hs0    bool
+	eof    chan struct{}
+	pong   chan int
+	pingN  int
+	sentN  int
+	wrErr  atomic.Bool
+	unsync bool // sent a class that breaks the framing (truncated / wrong length / mutated): no ping
 }
 
 func (w *world) connectAttacker(idx int, sc *scenario, tor *vh.Torrent, addr string, hs0 bool) (*attacker, error) {
@@ -289,8 +289,8 @@ func (w *world) observe(a *attacker, tr *torrent.Torrent, usePing bool) (alive, 
 	pong = -2 // no ping used
 	if a.closedNow() {
 		alive = 0
-	} else if usePing && a.hs0 {
-		pong = a.ping(3 * time.Second)
+	} else if usePing && a.hs0 && !a.unsync {
+		pong = a.ping(10 * time.Second)
 		if pong == 0 {
 			alive = 0
 		} else {
@@ -307,7 +307,7 @@ func (w *world) observe(a *attacker, tr *torrent.Torrent, usePing bool) (alive, 
 			alive = 1
 		}
 	}
-	deadline := time.Now().Add(2 * time.Second)
+	deadline := time.Now().Add(10 * time.Second)
 	for {
 		if !statsOK(tr, 3*time.Second) {
 			return alive, 0, pong, errHang
@@ -320,7 +320,7 @@ func (w *world) observe(a *attacker, tr *torrent.Torrent, usePing bool) (alive, 
 			select {
 			case <-a.eof:
 				alive = 0
-			case <-time.After(500 * time.Millisecond):
+			case <-time.After(5 * time.Second):
 			}
 			lst = 0
 			return
@@ -451,12 +451,20 @@ type hangErr struct{ site string }
 
 func (h hangErr) Error() string { return "hang: " + h.site }
 
+// hang confirms a blocked loop: Stats() stays unanswered for 6 more seconds AND the loop goroutine is parked
+// inside a handler (a frame below torrent.run) at the same site in two samples one second apart.
+// An idle loop on a slow machine sits in run's own select and is never reported.
 func (w *world) hang(tr *torrent.Torrent) error {
-	// confirm: still no answer after a second, longer wait
-	if statsOK(tr, 3*time.Second) {
+	if statsOK(tr, 6*time.Second) {
 		return nil
 	}
-	return hangErr{site: loopSite()}
+	s1 := loopSite()
+	time.Sleep(time.Second)
+	s2 := loopSite()
+	if s1 != s2 || !strings.Contains(s1, "<") {
+		return nil
+	}
+	return hangErr{site: s1}
 }
 
 func magnetOf(tor *vh.Torrent) string {
@@ -493,6 +501,8 @@ func (w *world) runScenario(sc *scenario) (err error) {
 		st0 = "down"
 	}
 	out.emit(map[string]any{"op": "Init", "sc": sc.ID, "st": st0, "label": sc.St, "n": e.N, "npe": sc.NPe, "maxmsg": e.MaxMsg})
+	var mem0 runtime.MemStats
+	runtime.ReadMemStats(&mem0)
 
 	// ---- bring the torrent into the state
 	var tr *torrent.Torrent
@@ -524,7 +534,8 @@ func (w *world) runScenario(sc *scenario) (err error) {
 	}
 	removed := false
 	defer func() {
-		if removed {
+		var h hangErr
+		if removed || errors.As(err, &h) { // a hung loop cannot be removed; the child exits anyway
 			return
 		}
 		done := make(chan struct{})
@@ -537,8 +548,42 @@ func (w *world) runScenario(sc *scenario) (err error) {
 			}
 		}
 	}()
+	// health monitor: Stats() every 300 ms; hungC is closed when the loop has not answered for 2.5 s
+	hungC := make(chan struct{})
+	monStop := make(chan struct{})
+	defer close(monStop)
+	go func() {
+		for {
+			select {
+			case <-monStop:
+				return
+			case <-time.After(300 * time.Millisecond):
+			}
+			if !statsOK(tr, 2500*time.Millisecond) && !statsOK(tr, 3*time.Second) {
+				close(hungC)
+				return
+			}
+		}
+	}()
+	isHung := func() bool {
+		select {
+		case <-hungC:
+			return true
+		default:
+			return false
+		}
+	}
+	// waitSt waits for a loop state; a loop that stops answering ends the wait early
 	waitSt := func(d time.Duration, pred func(*torrent.VerifSnap) bool) bool {
-		return w.hub.Wait(id, d, pred)
+		deadline := time.Now().Add(d)
+		for {
+			if w.hub.Wait(id, 250*time.Millisecond, pred) {
+				return true
+			}
+			if isHung() || time.Now().After(deadline) {
+				return false
+			}
+		}
 	}
 	addr := fmt.Sprintf("127.0.0.1:%d", tr.Port())
 	var honest *vh.Seeder
@@ -568,7 +613,7 @@ func (w *world) runScenario(sc *scenario) (err error) {
 		if ok {
 			return nil
 		}
-		if !statsOK(tr, 3*time.Second) {
+		if isHung() || !statsOK(tr, 3*time.Second) {
 			if h := w.hang(tr); h != nil {
 				return h
 			}
@@ -693,6 +738,9 @@ func (w *world) runScenario(sc *scenario) (err error) {
 			return eerr
 		}
 		atk[m.Pe].raw(b)
+		if strings.HasPrefix(m.Cls, "trunc.") || strings.HasPrefix(m.Cls, "wronglen.") || strings.HasPrefix(m.Cls, "mut:") {
+			atk[m.Pe].unsync = true
+		}
 		out.emit(map[string]any{"op": "Msg", "pe": m.Pe, "cls": m.Cls})
 	}
 	if sc.St == "stopping" && !stopped {
@@ -714,7 +762,38 @@ func (w *world) runScenario(sc *scenario) (err error) {
 		}
 		return nil
 	}
+	// loop health: Stats answers; no piece download is owned by a peer that rain has already closed
+	loopCheck := func(phase string) error {
+		if !statsOK(tr, 3*time.Second) {
+			if h := w.hang(tr); h != nil {
+				return h
+			}
+		}
+		statsOK(tr, 3*time.Second)
+		snap := w.hub.Get(id)
+		zombie, running, lastErr := 0, 0, ""
+		if snap != nil {
+			dl := 0
+			for _, p := range snap.PeerList {
+				if p.Downloading {
+					dl++
+				}
+			}
+			if snap.Downloads > dl {
+				zombie = snap.Downloads - dl
+			}
+			lastErr = snap.LastErr
+			if snap.Running {
+				running = 1
+			}
+		}
+		out.emit(map[string]any{"op": "Loop", "ok": 1, "zombie": zombie, "running": running, "lasterr": lastErr, "phase": phase})
+		return nil
+	}
 	if err = obs("pre"); err != nil {
+		return err
+	}
+	if err = loopCheck("pre"); err != nil {
 		return err
 	}
 
@@ -765,11 +844,6 @@ func (w *world) runScenario(sc *scenario) (err error) {
 			return (s.Status == "Downloading" || s.Status == "Seeding") && !s.Allocating && !s.Verifying && s.HasInfo && !s.BitfieldNil && s.PiecesLoaded
 		})
 		if !ok {
-			if !statsOK(tr, 3*time.Second) {
-				if h := w.hang(tr); h != nil {
-					return h
-				}
-			}
 			return reach("downloading after gate", false)
 		}
 		out.emit(map[string]any{"op": "Advance", "to": "down"})
@@ -780,6 +854,9 @@ func (w *world) runScenario(sc *scenario) (err error) {
 				return err
 			}
 		}
+		if err = loopCheck("post"); err != nil {
+			return err
+		}
 	}
 	for i := 0; i < 4000; i++ {
 		gate <- struct{}{}
@@ -788,17 +865,29 @@ func (w *world) runScenario(sc *scenario) (err error) {
 	hon := 1
 	why := ""
 	if sc.St == "seed" {
-		if ferr := leech.fetch(allBlocks(tor)[2:], 15*time.Second); ferr != nil {
+		if ferr := leech.fetch(allBlocks(tor)[2:], 40*time.Second); ferr != nil {
 			hon, why = 0, ferr.Error()
 		}
 	} else {
-		select {
-		case <-tr.NotifyComplete():
-			if !store.Complete(tor) {
-				hon, why = 0, "completed with wrong content"
+		hc := hungC
+		deadline := time.After(40 * time.Second)
+	waitDone:
+		for {
+			select {
+			case <-tr.NotifyComplete():
+				if !store.Complete(tor) {
+					hon, why = 0, "completed with wrong content"
+				}
+				break waitDone
+			case <-hc:
+				if h := w.hang(tr); h != nil {
+					return h
+				}
+				hc = nil // slow machine, not a blocked loop: keep waiting
+			case <-deadline:
+				hon, why = 0, "honest transfer did not complete in 40s"
+				break waitDone
 			}
-		case <-time.After(20 * time.Second):
-			hon, why = 0, "honest transfer did not complete in 20s"
 		}
 	}
 	out.emit(map[string]any{"op": "Dbg", "at": "honest done"})
@@ -807,35 +896,15 @@ func (w *world) runScenario(sc *scenario) (err error) {
 			return h
 		}
 	}
-	// ---- loop health
-	if !statsOK(tr, 3*time.Second) {
-		if h := w.hang(tr); h != nil {
-			return h
-		}
+	// ---- loop health at the end
+	if err = loopCheck("end"); err != nil {
+		return err
 	}
-	statsOK(tr, 3*time.Second)
 	snap := w.hub.Get(id)
-	zombie := 0
-	if snap != nil {
-		dl := 0
-		for _, p := range snap.PeerList {
-			if p.Downloading {
-				dl++
-			}
-		}
-		if snap.Downloads > dl {
-			zombie = snap.Downloads - dl
-		}
-	}
-	lastErr := ""
-	if snap != nil {
-		lastErr = snap.LastErr
-	}
-	running := 0
-	if snap != nil && snap.Running {
-		running = 1
-	}
-	out.emit(map[string]any{"op": "Loop", "ok": 1, "zombie": zombie, "running": running, "lasterr": lastErr})
+	// bytes allocated by the whole process during the scenario (torrent content is ~116 KiB, max message size 64 KiB)
+	var mem1 runtime.MemStats
+	runtime.ReadMemStats(&mem1)
+	out.emit(map[string]any{"op": "Mem", "delta": int64(mem1.TotalAlloc - mem0.TotalAlloc), "nmsg": len(sc.Msgs)})
 	hev := map[string]any{"op": "Honest", "ok": hon}
 	if why != "" {
 		hev["why"] = why
